@@ -29,6 +29,7 @@ func verifAttackSetup(N int, maxW uint64) (*Attacker, *verifPacer, Targeter) {
 		e := time.Duration(verif_nondet_i64("elapsed"))
 		verif_assume(e >= pacer.clock && e < time.Duration(verif_time_bound()))
 		pacer.clock = e
+		pacer.fresh = true
 		return e
 	})
 	// C04: the loop sleeps exactly the wait the pacer returned for this hit,
@@ -66,6 +67,7 @@ type verifPacer struct {
 	wait         time.Duration // wait returned by the latest Pace call
 	asked        bool          // a Pace call is waiting for its Sleep
 	stopped      bool
+	fresh        bool // the clock was read since the last Pace call
 	du           time.Duration
 }
 
@@ -75,7 +77,8 @@ func (p *verifPacer) Pace(elapsed time.Duration, hits uint64) (time.Duration, bo
 	// once more than the duration has elapsed
 	verif_assert(!p.stopped && !p.asked, "C04.pacer-consulted-once-per-hit-and-not-after-stop")
 	verif_assert(int64(hits) == verif_ghost_add("started", 0), "C04.pacer-sees-the-true-hit-count")
-	verif_assert(elapsed == p.clock, "C04.pacer-sees-the-elapsed-time-just-read")
+	verif_assert(elapsed == p.clock && p.fresh, "C04.pacer-sees-the-elapsed-time-just-read")
+	p.fresh = false // the next consultation needs a clock reading of its own
 	verif_assert(!(p.du > 0 && elapsed > p.du), "C04.pacer-not-consulted-after-the-duration")
 	if p.paces >= p.limit {
 		p.stopped = true
